@@ -259,6 +259,54 @@ def hash_drops():
     return out
 
 
+@structural("C04/scan/hash_env_source", props=["C04", "C13"],
+            note="every step hash computed by the executor (before the command, for the skip decision, and after it, for "
+                 "storing) takes the values of the tracked environment variables from Executor.base_env, the "
+                 "environment the command itself is started with (generated from the AST of executor.py)")
+def hash_env_source():
+    rel = "stepup/core/executor.py"
+    src, tree = extract.read_module(rel)
+    out = []
+    sites = 0
+    for fn in ast.walk(tree):
+        if not isinstance(fn, (ast.FunctionDef, ast.AsyncFunctionDef)):
+            continue
+        # local aliases of self.base_env in this function
+        aliases = {t.id for n in ast.walk(fn) if isinstance(n, ast.Assign) and ast.unparse(n.value) == "self.base_env"
+                   for t in n.targets if isinstance(t, ast.Name)}
+
+        def from_base_env(e, names):
+            """e is {k: <base_env>.get(k) for k in ...} (or a local bound to such a dict)."""
+            if isinstance(e, ast.Name) and e.id in names:
+                return all(from_base_env(v, {}) for v in names[e.id])
+            if not (isinstance(e, ast.DictComp) and isinstance(e.value, ast.Call) and isinstance(e.value.func, ast.Attribute)
+                    and e.value.func.attr == "get" and len(e.value.args) == 1):
+                return False
+            recv = e.value.func.value
+            ok_recv = ast.unparse(recv) == "self.base_env" or (isinstance(recv, ast.Name) and recv.id in aliases)
+            return ok_recv and ast.unparse(e.value.args[0]) == ast.unparse(e.key)
+
+        bound = {}
+        for n in ast.walk(fn):
+            if isinstance(n, ast.Assign) and len(n.targets) == 1 and isinstance(n.targets[0], ast.Name):
+                bound.setdefault(n.targets[0].id, []).append(n.value)
+        for n in ast.walk(fn):
+            if isinstance(n, ast.Call) and ast.unparse(n.func).endswith("StepHash.from_inp"):
+                sites += 1
+                arg = n.args[2] if len(n.args) > 2 else next((k.value for k in n.keywords if k.arg in ("env_values", "env_var_values", "env_vars")), None)
+                ok = arg is not None and from_base_env(arg, bound)
+                out.append((f"scan/hash_env_source/{fn.name}:{n.lineno - fn.lineno}", ok,
+                            f"StepHash.from_inp in {fn.name} reads the tracked variables from "
+                            f"{ast.unparse(arg) if arg is not None else '?'} instead of self.base_env"))
+    out.append(("scan/hash_env_source/sites", sites >= 2, f"{sites} call(s) of StepHash.from_inp found in executor.py (expected the "
+                                                           "pre-run and the post-run computation)"))
+    _, rc = extract.find_def(rel, "Executor._run_command")
+    child = any(isinstance(n, ast.Assign) and ast.unparse(n.value) in ("dict(self.base_env)", "self.base_env.copy()", "{**self.base_env}")
+                for n in ast.walk(rc))
+    out.append(("scan/hash_env_source/command_env", child, "the environment of the command is a copy of self.base_env"))
+    return out
+
+
 # ---------------------------------------------------------------- Step.after_recycle keeps state and hash
 
 stepmod = common.stepmod
